@@ -138,6 +138,18 @@ def run(ctx):
         if a.get("status") != "panic":
             ctx.violation(f"Vector::<_, {r['D']}>::from_vec accepted {len(r['a'])} elements (constructors round-trip their elements: "
                           "wrong-length input must be rejected, not truncated or padded)", r, expected="panic (invalid dimension)", observed=a)
+    # operand roles with a scalar type whose results carry the identity of their LEFT operand (self = 1, rhs = 2, scalar = 3): the
+    # componentwise definitions are `self_i op rhs_i`, and dot/squared accumulate from zero() of self, adding self_i * rhs_i
+    tg = []
+    for D in range(1, 7):
+        for fn in ("add", "sub", "muls", "mulr", "addassign", "dot", "squared", "new"):
+            tg.append({"op": "vec_tag", "fn": fn, "D": D, "a": [f2b(rng.uniform(-2, 2)) for _ in range(D)], "b": [f2b(rng.uniform(-2, 2)) for _ in range(D)],
+                       "s": f2b(1.5)})
+    for r, a in zip(tg, run_harness(tg)):
+        ctx.case(r, nontrivial=True); ctx.count("vec.operand_roles")
+        if "tags" not in a or any(t != 1 for t in a["tags"]):
+            ctx.violation(f"Vector::{r['fn']} (D={r['D']}): with a scalar type that remembers its left operand the result is not `self op rhs` "
+                          f"accumulated from zero() of self (tags {a.get('tags')}, expected all 1)", r, expected=[1] * len(a.get("tags", [1])), observed=a)
     impl = run_harness(reqs)
     model = run_driver(reqs)
     for r, a, m in zip(reqs, impl, model):
